@@ -30,7 +30,7 @@ type In struct {
 	Kind    string   // dsc | changes
 	Op      string   // copy | move | remove
 	Names   []string // listed names of the referenced files (as written in the control file)
-	Dest    string   // emptydir | samename | samename-longer | samename-samesize | regularfile | missing
+	Dest    string   // emptydir | samename | samename-longer | samename-samesize | regularfile | missing | child | parent | dir-named-like-file | dir-named-like-control
 	Gone    int      // index+1 of a referenced file that does not exist at the source (0 = all present)
 	Sums    []string `json:",omitempty"` // names listed ONLY in Checksums-Sha256 / Checksums-Sha1 (not in Files)
 	NoFiles bool     `json:",omitempty"` // the control file has no Files field at all
@@ -279,6 +279,16 @@ func execute(in In) (*result, error) {
 		os.WriteFile(filepath.Join(dst, in.ctlName()), []byte(strings.Repeat("o", len(in.controlText()))), 0o644)
 	case "child", "parent":
 		os.MkdirAll(dst, 0o755)
+	case "dir-named-like-file", "dir-named-like-control":
+		// the destination holds a DIRECTORY (not empty) under the name a file is about to get: the last referenced file's,
+		// or the control file's. The file cannot be put there, so the operation fails - with everything a failure implies.
+		os.MkdirAll(dst, 0o755)
+		name := in.ctlName()
+		if in.Dest == "dir-named-like-file" && len(in.Names) > 0 {
+			name = filepath.Base(in.Names[len(in.Names)-1])
+		}
+		os.MkdirAll(filepath.Join(dst, name), 0o755)
+		os.WriteFile(filepath.Join(dst, name, "keep"), []byte("a file inside the directory that is in the way\n"), 0o644)
 	case "regularfile":
 		os.WriteFile(dst, []byte("i am a file\n"), 0o644)
 	case "missing":
@@ -496,7 +506,8 @@ func check(scen string, in In) ([]*mc.Violation, *result) {
 	if old, was := res.before[ctlDst]; was && ctlInDst && ctlNow == old {
 		ctlInDst = false // the untouched file of the same name that was there before is not "the control file in the destination"
 	}
-	dstIsDir := in.Dest == "emptydir" || in.Dest == "samename" || in.Dest == "samename-longer" || in.Dest == "samename-samesize" || in.Dest == "child" || in.Dest == "parent"
+	blocked := in.Dest == "dir-named-like-file" || in.Dest == "dir-named-like-control"
+	dstIsDir := in.Dest == "emptydir" || in.Dest == "samename" || in.Dest == "samename-longer" || in.Dest == "samename-samesize" || in.Dest == "child" || in.Dest == "parent" || blocked
 
 	// I5 containment (always): every path the library touched lies in the control file's directory or the destination; sentinels intact
 	for _, op := range res.ops {
@@ -601,7 +612,7 @@ func check(scen string, in In) ([]*mc.Violation, *result) {
 		// no event, or the operation claims success despite one: complete success is required (I4)
 		if res.err != nil {
 			// legitimate failures without any injected event: destination is a regular file / missing
-			if (dstIsDir || in.Op == "remove") && len(features(in)) == 0 && in.Gone == 0 {
+			if (dstIsDir || in.Op == "remove") && len(features(in)) == 0 && in.Gone == 0 && !blocked {
 				// plain names only: uploads whose listed names are not plain file names may be refused
 				bad("operation-succeeds", "nil error for a well-formed upload and destination", res.err.Error())
 			} else if ctlInDst && dstIsDir {
@@ -619,6 +630,10 @@ func check(scen string, in In) ([]*mc.Violation, *result) {
 		}
 		if !dstIsDir && in.Op != "remove" {
 			bad("non-directory-destination-is-an-error", "error", "nil")
+			break
+		}
+		if blocked && in.Event == "none" {
+			bad("failure-is-reported", "an error is returned when a directory is in the way of a file", "nil error")
 			break
 		}
 		if in.Gone > 0 && in.Event == "none" {
@@ -754,6 +769,8 @@ func Run(r *mc.Run) {
 	// destinations inside / around the upload's own directory, and listed sizes that do not match the files
 	for _, kind := range []string{"dsc", "changes"} {
 		for _, op := range []string{"copy", "move"} {
+			bases = append(bases, In{Kind: kind, Op: op, Names: plain[2], Dest: "dir-named-like-file", Event: "none"}, In{Kind: kind, Op: op, Names: plain[2], Dest: "dir-named-like-control", Event: "none"},
+				In{Kind: kind, Op: op, Names: plain[1], Dest: "dir-named-like-file", Event: "none"})
 			bases = append(bases, In{Kind: kind, Op: op, Names: plain[2], Dest: "child", Event: "none"}, In{Kind: kind, Op: op, Names: plain[2], Dest: "parent", Event: "none"})
 			for _, sk := range []int{1, 2, -1, -2} {
 				bases = append(bases, In{Kind: kind, Op: op, Names: plain[2], Dest: "emptydir", Event: "none", Skew: sk})
